@@ -23,8 +23,21 @@ package statefulset
 //@ spec func isHealthyS(p *v1.Pod) bool = isRunningAndReadyS(p) && !isTerminatingS(p)
 //@ spec func revOf(p *v1.Pod) string = p.Labels[RevisionLabel]
 
+// What the regular expression (.*)-([0-9]+)$ extracts from a pod name (assumed behaviour of regexp on the package-level
+// statefulPodRegex, whose pattern is never reassigned): whether it matches, the greedy prefix, the digits.
+//@ spec func reMatch(name string) bool
+//@ spec func reParent(name string) string
+//@ spec func reDigits(name string) string
+// ordName / parentName are what getParentNameAndOrdinal computes from those pieces and strconv.ParseInt(digits, 10, 32)
+//@ axiom ordName_def: forall s string :: {ordName(s)} ordName(s) == ite(reMatch(s) && parseOK32(reDigits(s)), parsed32(reDigits(s)), 0 - 1)
+//@ axiom parentName_def: forall s string :: {parentName(s)} parentName(s) == ite(reMatch(s), reParent(s), "")
+//@ axiom digits_nonneg: forall s string :: {parsed32(reDigits(s))} reMatch(s) && parseOK32(reDigits(s)) ==> parsed32(reDigits(s)) >= 0
+//@ extern regexp:Regexp.FindStringSubmatch@getParentNameAndOrdinal
+//@   params re, s
+//@   pure
+//@   ensures reMatch(s) ==> len(result) == 3 && result[1] == reParent(s) && result[2] == reDigits(s)
+//@   ensures !reMatch(s) ==> len(result) == 0
 //@ func getParentNameAndOrdinal
-//@   trusted "regexp (.*)-([0-9]+)$ and strconv.ParseInt are outside the translator's reach; validated by a bounded conformance run"
 //@   results parent, ordinal
 //@   requires pod != nil
 //@   pure
